@@ -74,6 +74,12 @@ def generate(rng, i):
         # repeated episodes on one environment: timing must be the same in every one of them
         for _ in range(rng.randint(1, 2)):
             script = script + gen_epi.full_episode_script(rng, env, fold=fold, unique=True)
+    if env["space"]["type"] == "box" and rng.random() < 0.25:
+        # the agent fills the space's own flat template (null_action()) in place and submits it, step after step
+        for op in script:
+            if op["op"] == "step" and isinstance(op["action"], list):
+                op["action"] = {"as": "template", "v": op["action"]}
+        env["template_actions"] = True
     if rng.random() < 0.12:
         # fault: the transmitter is handed one more event after the environment was built (before some reset)
         resets = [j for j, op in enumerate(script) if op["op"] == "reset"]
@@ -170,6 +176,8 @@ def execute(scenario):
         n_exec = sum(1 for st in ep["steps"] if st.get("exc") is None and not st["done_before"])
         if env_spec.get("thin"):
             probe("thinly_quoted_contracts")
+        if env_spec.get("template_actions") and delay >= 1:
+            probe("actions_written_into_the_space_template_with_delay")
         if ei == 0 and sim.faults.get("environment_construction_refused"):
             probe("environment_construction_refused")
         if delay >= 2:
@@ -215,6 +223,8 @@ def scenario_action(scenario, ep, j):
 
 
 def uncanon(a):
+    if isinstance(a, dict) and "v" in a:
+        return dict(a, v=uncanon(a["v"]))
     if isinstance(a, list):
         return [float.fromhex(x) if isinstance(x, str) else x for x in a]
     return a
